@@ -275,12 +275,14 @@ def run(ctx):
     thorough = ctx.tier == 'thorough'
     nrand = 200
     if thorough:
-        run_value(ctx, 'v_2x3', 2, 3, nrand, methods='MAll', valmax=3, candmax=6, xforms='XfAll')
-        run_value(ctx, 'v_3x3', 3, 3, nrand, methods='MAll', valmax=2, candmax=4, bys='ByBoth', thin_s=1, thin_g=5)
-        run_value(ctx, 'v_mask_a', 2, 4, nrand, methods='MAll', valmax=2, candmax=2, masks='Mask4a', xforms='XfFew')
-        run_value(ctx, 'v_mask_b', 2, 4, nrand, methods='MAll', valmax=2, candmax=2, masks='Mask4b', thin_s=13)
+        run_value(ctx, 'v_2x3', 2, 3, nrand, methods='MAll', valmax=3, candmax=5, xforms='XfAll')
+        run_value(ctx, 'v_3x3', 3, 3, nrand, methods='MAll', valmax=2, candmax=3, bys='ByBoth', thin_s=1, thin_g=5)
+        run_value(ctx, 'v_mask_a', 2, 4, nrand, methods='MAll', valmax=2, candmax=2, masks='Mask4a', thin_s=3, xforms='XfFew')
+        run_value(ctx, 'v_mask_b', 2, 4, nrand, methods='MAll', valmax=2, candmax=2, masks='Mask4b', thin_s=53)
         run_value(ctx, 'v_3x4_mask', 3, 4, nrand, methods='MAll', valmax=1, candmax=2, masks='Mask4a', bys='ByBoth',
                   thin_s=3, thin_g=7)
+        run_value(ctx, 'v_cv_3x4', 3, 4, nrand, methods='MAll', valmax=1, thin_r=2, thin_s=11, cvcat='CvCat34', gens='GensAll',
+                  perml=2)
     else:
         run_value(ctx, 'v_2x3', 2, 3, nrand, methods='MAll', valmax=3, candmax=4, thin_s=7, xforms='XfFew')
         run_value(ctx, 'v_3x3', 3, 3, nrand, methods='MAll', valmax=2, candmax=3, bys='ByBoth', thin_s=11, thin_g=47)
